@@ -195,10 +195,15 @@ class SymbolOrFixtureCall(CodegenNode):
 
 @dataclasses.dataclass
 class WithTagsCall(CodegenNode):
-  """Represents a call to auto_config.with_tags()."""
+  """Represents a call to auto_config.with_tags().
+
+  If `as_tagged_value` is set (code that is not an auto_config function), the
+  node is emitted as `Tag.new(item)` instead.
+  """
 
   tag_symbol_expressions: List[str]
   item_to_tag: Any
+  as_tagged_value: bool = False
 
 
 @dataclasses.dataclass
